@@ -496,3 +496,48 @@ Fixpoint listener_run (r : rl) (now : Z) (es : list aev) : list lim_outcome :=
   | [] => []
   | e :: es' => snd (listener_step r now e) :: listener_run (fst (listener_step r now e)) now es'
   end.
+
+(* ------------------------------------------------------------------ one stream connection (round 6) *)
+
+(* app/router/server_tcp.go handleConn (tcp, tls), server_tcp_gnet_linux.go OnTraffic, server_quic.go handleConn:
+   a long-lived connection carries many queries.  tcp / tls / gnet keep a per-connection counter of queries in flight
+   (concurrent.Add(1) when a query has been read; max_concurrent_queries, default 100); the query is refused when the
+   counter exceeds the cap OR (tcp, tls; quic without a counter) the limiter refuses it; the slot is given back on EVERY
+   path: at once when the query is refused (by the cap or by the limiter), after the reply has been written otherwise. *)
+Record lsconn := mkLsconn { lsc_rl : rl; lsc_inflight : Z }.
+
+Inductive lsc_ev :=
+| LscArrive (now : Z) (a : lim_addr) (hit : bool)     (* a query has been read from the connection *)
+| LscDone.                                            (* the reply of a handled query has been written *)
+
+Definition lsc_has_cap (l : lim_listener) : bool := match l with LmTcp | LTls | LGnet => true | _ => false end.
+
+(* the cap's verdict on the next query: cc := counter + 1 > max_concurrent_queries *)
+Definition lsc_cap_hit (l : lim_listener) (maxc : Z) (s : lsconn) : bool := lsc_has_cap l && (maxc <? lsc_inflight s + 1).
+
+(* [leak] = the faulty variant in which a query refused by the LIMITER keeps its slot (Props: C15_stream_leak_refuted) *)
+Definition lsc_step_gen (leak : bool) (l : lim_listener) (maxc : Z) (s : lsconn) (e : lsc_ev) : lsconn * option lim_outcome :=
+  match e with
+  | LscArrive now a hit =>
+      if lsc_cap_hit l maxc s then (s, Some (refusal l))                       (* Add(1); refused; Add(-1) *)
+      else let x := accept_query (lsc_rl s) now l a hit in
+           if forwards (snd x) then (mkLsconn (fst x) (lsc_inflight s + 1), Some (snd x))       (* slot kept until LscDone *)
+           else (mkLsconn (fst x) (if leak then lsc_inflight s + 1 else lsc_inflight s), Some (snd x))
+  | LscDone => (mkLsconn (lsc_rl s) (lsc_inflight s - 1), None)
+  end.
+
+Definition lsc_step := lsc_step_gen false.
+
+Fixpoint lsc_run_gen (leak : bool) (l : lim_listener) (maxc : Z) (s : lsconn) (es : list lsc_ev) : lsconn * list (option lim_outcome) :=
+  match es with
+  | [] => (s, [])
+  | e :: es' => let x := lsc_step_gen leak l maxc s e in
+                let y := lsc_run_gen leak l maxc (fst x) es' in (fst y, snd x :: snd y)
+  end.
+Definition lsc_run := lsc_run_gen false.
+
+(* queries handled (slot taken) and replies written in a script *)
+Definition lsc_count_answered (os : list (option lim_outcome)) : Z :=
+  fold_right (fun o n => match o with Some OAnswered => n + 1 | _ => n end) 0 os.
+Definition lsc_count_done (es : list lsc_ev) : Z :=
+  fold_right (fun e n => match e with LscDone => n + 1 | _ => n end) 0 es.
